@@ -100,7 +100,15 @@ func main() {
 		file := filepath.Base(in)
 		file = file[0 : len(file)-len(filepath.Ext(in))] // Remove extension.
 
-		err = os.WriteFile(filepath.Join(options.out, fmt.Sprintf("%s.%s", file, conv.Extension())), []byte(dump), 0777)
+		out := filepath.Join(options.out, fmt.Sprintf("%s.%s", file, conv.Extension()))
+		inInfo, inErr := os.Stat(in)
+		outInfo, outErr := os.Stat(out)
+
+		// The input file is never overwritten.
+		if inErr == nil && outErr == nil && os.SameFile(inInfo, outInfo) {
+			panic(fmt.Errorf("output file %s is the input file", out))
+		}
+		err = os.WriteFile(out, []byte(dump), 0777)
 
 		if err != nil {
 			panic(err)
